@@ -407,7 +407,7 @@ def write_if_changed(path, content):
 
 
 T5_GROUPS = (("bv", "FnsBv.v"), ("rsn2", "FnsRsn2.v"), ("rsw2", "FnsRsw2.v"), ("rss", "FnsRss.v"),
-             ("qv2", "FnsQv2.v"), ("rsq", "FnsRsq.v"), ("qwt", "FnsQwt.v"), ("hqwt", "FnsHqwt.v"), ("wt", "FnsWt.v"), ("da", "FnsDa.v"))
+             ("qv2", "FnsQv2.v"), ("rsq", "FnsRsq.v"), ("qwt", "FnsQwt.v"), ("hqwt", "FnsHqwt.v"), ("wt", "FnsWt.v"), ("da", "FnsDa.v"), ("bvm", "FnsBvm.v"))
 
 
 def main():
